@@ -84,12 +84,19 @@ package volatility
 //@ use bbwS_nonneg(c, b.BollingerBands.Period, _)
 //@ ensures[C15] "non-negative" forall k :: 0 <= k && k < len(result) && (forall j :: k <= j && j < k + b.BollingerBands.Period ==> c[j] > 0) ==> result[k] >= 0
 
+// Chandelier Exit Long = 22-Period High - ATR(22) * 3, Chandelier Exit Short = 22-Period Low + ATR(22) * 3
+// (the doc comment says "SMA High" / "SMA Low"; the period high / low of the standard definition is what is computed)
 //@ func ChandelierExit.Compute
 //@ requires c.Period >= 1 && consumed(highs) == 0 && consumed(lows) == 0 && consumed(closings) == 0 && len(highs) == len(lows) && len(highs) == len(closings)
 //@ ensures[C02] len(result0) == max(0, len(highs) - (c.IdlePeriod())) && len(result1) == max(0, len(highs) - (c.IdlePeriod()))
 //@ ensures[C03] consumed(highs) == len(highs) && consumed(lows) == len(lows) && consumed(closings) == len(closings) && closed(result0) && closed(result1)
 //@ ensures[C04] forall kk :: 0 <= kk && kk < len(result0) ==> hor(result0, kk) <= max(hor(highs, kk + (c.IdlePeriod())), max(hor(lows, kk + (c.IdlePeriod())), hor(closings, kk + (c.IdlePeriod()))))
 //@ ensures[C04] forall kk :: 0 <= kk && kk < len(result1) ==> hor(result1, kk) <= max(hor(highs, kk + (c.IdlePeriod())), max(hor(lows, kk + (c.IdlePeriod())), hor(closings, kk + (c.IdlePeriod()))))
+//@ use wmax_cong(highsSplice[0], highs, _, _)
+//@ use wmin_cong(lowsSplice[0], lows, _, _)
+//@ use psum_cong(trS(highsSplice[1], lowsSplice[1], closings), trS(highs, lows, closings), _)
+//@ step[C01] "atr" forall k :: 0 <= k && k < len(result0) ==> res(Atr_Compute, 0)[k] == smaS(trS(highs, lows, closings), c.Period)[k]
+//@ ensures[C01] "documented" forall k :: 0 <= k && k < len(result0) ==> result0[k] == wmaxS(highs, k + 1, k + 1 + c.Period) - smaS(trS(highs, lows, closings), c.Period)[k] * c.Multiplier && result1[k] == wminS(lows, k + 1, k + 1 + c.Period) + smaS(trS(highs, lows, closings), c.Period)[k] * c.Multiplier
 
 //@ func DonchianChannel.Compute
 //@ requires d.Max.Period >= 1 && d.Min.Period == d.Max.Period && consumed(c) == 0
@@ -148,11 +155,16 @@ package volatility
 //@ loop#1 invariant sum2 == devsq(c, consumed(c) - m.Period, consumed(c) - m.Period + i, sma) && sum2 >= 0
 
 //@ typeinv PercentB :: self.BollingerBands.Period >= 1
+// %B = (Close - Lower Band) / (Upper Band - Lower Band), bands = SMA -/+ 2 standard deviations
 //@ func PercentB.Compute
 //@ requires p.BollingerBands.Period >= 1 && consumed(closings) == 0
 //@ ensures[C02] len(result) == max(0, len(closings) - (p.IdlePeriod()))
 //@ ensures[C03] consumed(closings) == len(closings) && closed(result)
 //@ ensures[C04] forall kk :: 0 <= kk && kk < len(result) ==> hor(result, kk) <= hor(closings, kk + (p.IdlePeriod()))
+//@ use psum_cong(closingsSplice[0], closings, _)
+//@ use std_cong(closingsSplice[0], closings, p.BollingerBands.Period, _)
+//@ step[C01] "bands" forall k :: 0 <= k && k < len(result) ==> upperBands[k] == smaS(closings, p.BollingerBands.Period)[k] + 2 * stdS(closings, p.BollingerBands.Period)[k] && lowerBands[k] == smaS(closings, p.BollingerBands.Period)[k] - 2 * stdS(closings, p.BollingerBands.Period)[k]
+//@ ensures[C01] "documented" forall k :: 0 <= k && k < len(result) ==> result[k] == (closings[k + p.BollingerBands.Period - 1] - (smaS(closings, p.BollingerBands.Period)[k] - 2 * stdS(closings, p.BollingerBands.Period)[k])) / ((smaS(closings, p.BollingerBands.Period)[k] + 2 * stdS(closings, p.BollingerBands.Period)[k]) - (smaS(closings, p.BollingerBands.Period)[k] - 2 * stdS(closings, p.BollingerBands.Period)[k]))
 
 //@ func Po.Compute
 //@ requires p.mls.Sum.Period >= 1 && p.min.Period >= 1 && p.max.Period == p.min.Period && consumed(highs) == 0 && consumed(lows) == 0 && consumed(closings) == 0 && len(highs) == len(lows) && len(highs) == len(closings)
